@@ -1761,8 +1761,11 @@ def _path_cases(ctx, maxf):
             for mode, kind in (("dict", "dict"), ("json", "json"), ("attributes", "attrs")):
                 for call in CALLS:
                     m = "json" if call in ("default", "objkw") else mode
+                    o = {"kind": kind, "fields": f}
+                    if m != mode:       # the default mode handed a dict / an attribute object: refusal not demanded
+                        o["other_kind"] = True
                     batch.append(("geometry_validate", {"mode": m, "call": call, "fn": rng.choice(("data", "top", "geometries")),
-                                                        "obj": {"kind": kind, "fields": f}}))
+                                                        "obj": o}))
                     n["calls"] += 1
             for call in ("kw", "kwrev"):
                 batch.append(("construct", {"cls": cls, "call": call, "kw": {"type": cls, "coordinates": raw}}))
@@ -2224,6 +2227,10 @@ def _h_variants(x, rng):
         return []
     out = [{"op": o, "inp": i} for o, i in entries(cls, raw)]
     out.append({"op": "class_validate", "inp": {"cls": cls, "via": "model_validate", "fields": {"coordinates": raw}}})
+    # a call that relies on the default mode, after calls that named one (an option must not leak into module state)
+    for call in ("default", "objkw", "pos"):
+        out.append({"op": "geometry_validate", "inp": {"mode": "json", "call": call,
+                                                       "obj": {"kind": "json", "fields": {"type": cls, "coordinates": raw}}}})
     leaves = list(_leaf_paths(raw))
     for _ in range(3):
         if leaves:
@@ -2355,6 +2362,72 @@ def _stage_nonfinite_judged(ctx):
              "accepted although NaN is not >= 0 / the JSON dump (null) does not re-validate (known finding C03-1)")
 
 
+_CONFIRM = r"""
+import json, os, sys, warnings
+warnings.filterwarnings("ignore")
+sys.path.insert(0, os.environ["C03_VERIF"]); sys.path.insert(0, os.environ.get("SOUNDEVENT_SRC", "/repo/src"))
+from harness.props import c03
+from harness.core import canon_exc
+for op, inp in json.load(sys.stdin):
+    try:
+        out = c03.OPS[op].impl(inp)
+    except Exception as e:
+        out = canon_exc(e)
+    print(json.dumps(out, default=str))
+"""
+
+
+def _stage_confirm(ctx):
+    """Every failure found (smallest first) is run once more as the only thing a fresh process does.  One that does not
+    fail there exists only because of *other* earlier calls in this process (state carried between calls): it is
+    labelled as such and, when failures that do reproduce on their own were found as well (typically `history`
+    failures, whose replay is the whole sequence), those are reported instead."""
+    import os
+    import subprocess
+    import sys
+    from ..leanio import VERIF
+    cands = [f for f in ctx.failures if f.kind == "property" and f.op in OPS and f.op != "instance_validate"
+             and isinstance(f.impl, dict)]
+    if not cands:
+        return
+
+    def strip(o):
+        if isinstance(o, dict):
+            return {k: strip(v) for k, v in o.items() if k != "trace"}
+        if isinstance(o, list):
+            return [strip(v) for v in o]
+        return o
+    single = sorted([f for f in cands if f.op != "history"], key=lambda f: f.size())[:12]
+    hist = sorted([f for f in cands if f.op == "history"], key=lambda f: f.size())[:12]
+    same, dependent = [], []
+    for f in single + hist:
+        try:
+            p = subprocess.run([sys.executable, "-c", _CONFIRM], input=json.dumps([[f.op, f.inp]]), text=True,
+                               stdout=subprocess.PIPE, stderr=subprocess.DEVNULL, timeout=120,
+                               env={**os.environ, "C03_VERIF": VERIF})
+            fresh = json.loads(p.stdout.strip().splitlines()[-1])
+        except Exception:  # noqa: BLE001 - no verdict on this one
+            continue
+        if strip(fresh) == strip(f.impl):
+            same.append(f)
+        else:
+            f.detail += (" [state carried between calls: run alone in a fresh process the same input gives "
+                         + json.dumps(strip(fresh))[:160] + "]")
+            dependent.append(f)
+    ctx.tally("confirm:fresh-process", len(single) + len(hist))
+    if dependent and same:
+        # the failures that were not re-run share the state of the process with those that were: keep only what is
+        # known to reproduce on its own
+        keep_ids = {id(f) for f in same}
+        dropped = [f for f in ctx.failures if f.kind == "property" and id(f) not in keep_ids and f.op in OPS
+                   and f.op != "instance_validate"]
+        ctx.note(f"{len(dropped)} failures are not reported on their own: {len(dependent)} of the {len(single) + len(hist)} smallest "
+                 "exist only after other earlier calls in the same process (e.g. " + json.dumps(dependent[0].inp)[:200]
+                 + "); the replays reported reproduce in a fresh process")
+        drop_ids = {id(f) for f in dropped}
+        ctx.failures[:] = [f for f in ctx.failures if id(f) not in drop_ids]
+
+
 def run(ctx):
     # The differential stages come first and the symbolic tracing last: tracing runs the validators on symbolic
     # values, and code that keeps state between calls (a cache, a "last result") would keep *those* - the later
@@ -2370,6 +2443,7 @@ def run(ctx):
     ctx.stage("random", _stage_random, ctx)
     ctx.stage("non-finite", _stage_nonfinite_judged, ctx)
     ctx.stage("histories", _stage_histories, ctx)
+    ctx.stage("fresh-process-confirmation", _stage_confirm, ctx)
     ctx.stage("symbolic-ties", _symbolic_ties, ctx)
     ctx.stage("discharge", ctx.discharge, ["Proofs.C03", "SoundeventModel.ValidateTactics", "SoundeventModel.Tactics"])
 
